@@ -49,3 +49,7 @@ def cells_vs_quadrature(inp):
                 bad.append({'shape': shape, 'delta': d, 'time_1': t1, 'time_2': t2, 'temperature': c.temperature,
                             'observed': str(complex(got)), 'required (direct integration of its own C)': str(complex(want))})
     return {'violates': bool(bad), 'checked': checked, 'detail': bad[:3]}
+
+
+# thorough tier (bounded native sweeps): (function, inputs, obligation of the open finding it reproduces or None)
+THOROUGH = [('cells_vs_quadrature', {}, None), ('cells_vs_quadrature', {'obligation': 'cell/triangle[time_1 != 0]'}, 'cell/triangle[time_1 != 0]')]
